@@ -94,26 +94,61 @@ Print Assumptions C02_engine_sound.
    extractor regexes on the text at hand, which the harness checks on every recorded call / token ---- *)
 From EV Require Import Model.Extract Model.E2E Model.RefEngine Model.E2EClosed Proofs.ClosedProofs Proofs.ClosedCorollaries.
 
-(* premises left:
-   - search_residual2: a `$`-anchored backward match ends at the window end (the engine theorem gives "or just before
-     a final newline");
-   - odd_short_rows_silent s: the text has no short-form citation of the 11 reporters whose short-form pattern puts
-     text AFTER the page group inside the token ("19 CO at 12M", "... at 5 (6th Cir.)"): for those the premise
-     "the token ends with its page" of the offset proof is FALSE (C02_short_page_refuted below) -- the implementation's
-     spans are still right on them (D1 clamp), which the harness observes but no theorem covers.
-   Everything else -- match-object well-formedness, forward matches start at 0, the pin-cite group starts at 0, the
-   short-form antecedent is always captured, POST_SHORT always matches, the parenthetical is the last group of the
-   post-citation match, every other short-form token ends with its page group -- is proved for the engine on the
-   regenerated ASTs (Proofs/SearchDischarge.v, SearchDischarge2.v, ShortPage.v: soundness of the engine w.r.t. a
-   declarative semantics WITH captures, Regex/DeclCap.v, and verified static analyses run by the kernel) *)
-From EV Require Import Proofs.SearchDischarge Proofs.ShortPage Proofs.SearchDischarge2.
+(* THE CLOSED THEOREM.  No premise about candidates, tokens, regex matches or reference matches is left: every one
+   of them is proved for the engine on the regenerated tables (Proofs/ExtractProofs, ClosedProofs, SearchDischarge,
+   SearchDischarge2, ShortPage, SearchGuarded: soundness of the engine w.r.t. declarative semantics with and without
+   captures, and verified static analyses run by the kernel).  The three premises are conditions on the TEXT:
+   - s <> "eyecite" (the easter egg: known finding);
+   - ws_clean: the text contains no whitespace character other than U+0020 -- what eyecite's recommended
+     all_whitespace cleaning produces.  Needed because `$` also matches before a final newline and because
+     DEFENDANT_YEAR accepts an empty defendant after a leading whitespace: for unrestricted windows the oracle
+     contracts search_ok / defyear_ok are FALSE of the engine (C02_contract_refuted_on_all_windows), so the earlier,
+     unguarded closed statements were vacuous; the contracts are now guarded by ws_clean windows and hold outright;
+   - odd_short_rows_silent: the text has no short-form citation of the 11 reporters whose short-form pattern puts
+     text AFTER the page group inside the token ("19 CO at 12M", "... at 5 (6th Cir.)"): for those the premise "the
+     token ends with its page" of the offset proof is false (C02_short_page_refuted) although the implementation's
+     spans are right (D1 clamp) -- a limit of the proof, observed by the harness. *)
+From EV Require Import Proofs.SearchDischarge Proofs.ShortPage Proofs.SearchDischarge2 Proofs.Vacuity Proofs.SearchGuarded Proofs.ClosedFinal.
 
 Theorem C02_closed_offsets : forall this_year s ra l,
-  s <> s_eyecite -> odd_short_rows_silent s -> search_residual2 (engine_search UM meta_table) ->
+  s <> s_eyecite -> ws_clean is_space_gen s -> odd_short_rows_silent s ->
   get_citations_closed this_year s ra = Ok l ->
   Forall (offsets_ok s) l.
-Proof. exact closed_offsets4. Qed.
+Proof. exact closed_offsets_final. Qed.
 Print Assumptions C02_closed_offsets.
+
+(* the premises are satisfiable and the conclusion is about a non-trivial run: "Foo v. Bar, 1 U.S. 1 (1999). Id. at 5."
+   meets all three and the closed model returns two citations on it *)
+Theorem C02_closed_nonvacuous :
+  s_example <> s_eyecite /\ ws_clean is_space_gen s_example /\ odd_short_rows_silent s_example /\
+  exists l, get_citations_closed 2026 s_example false = Ok l /\ length l = 2%nat.
+Proof. exact final_premises_hold. Qed.
+Print Assumptions C02_closed_nonvacuous.
+
+(* the unguarded oracle contract is false of the real engine: witness windows "Foo, \n" and " (1999)" *)
+Theorem C02_contract_refuted_on_all_windows :
+  ~ search_ok (engine_search UM meta_table) /\ ~ Proofs.PipeMeta.defyear_ok (engine_search UM meta_table).
+Proof. exact (conj search_ok_refuted defyear_refuted). Qed.
+Print Assumptions C02_contract_refuted_on_all_windows.
+
+(* ... and the guarded one holds outright *)
+Theorem C02_engine_contract_guarded : search_ok_g is_space_gen (engine_search UM meta_table).
+Proof. exact E_search_ok_g. Qed.
+Print Assumptions C02_engine_contract_guarded.
+
+(* the general statement the closed theorem instantiates: any oracle meeting the guarded contract, any stream *)
+Theorem C02_offsets_guarded :
+  forall search refsearch MAXC BACK D highest this_year edition_of source_of valid_name is_space
+         text words cits ra l,
+  text <> s_eyecite -> ws_clean is_space text ->
+  stream_ok text words -> cits_ok words cits -> toks_ok source_of words ->
+  search_ok_g is_space search -> refs_ok refsearch ->
+  (forall w, search PPostShort w <> None) ->
+  get_citations search refsearch MAXC BACK D highest this_year edition_of source_of valid_name is_space
+                text words cits ra = Ok l ->
+  Forall (offsets_ok text) l.
+Proof. exact get_citations_offsets_g. Qed.
+Print Assumptions C02_offsets_guarded.
 
 (* the premise "a short-form token ends with its page group" fails on the text "19 CO at 12M" *)
 Theorem C02_short_page_refuted : ~ short_page_ok s_19_CO_at_12M.
@@ -130,11 +165,6 @@ Theorem C02_engine_parenthetical_last : forall w m, engine_search UM meta_table 
     forall k x y, In (k, Some (x, y)) (m_groups m) -> str_eqb k g_parenthetical = false -> (y <= a)%nat.
 Proof. exact E_parenthetical_last. Qed.
 Print Assumptions C02_engine_parenthetical_last.
-
-Theorem C02_engine_contract : search_residual2 (engine_search UM meta_table) ->
-  search_ok (engine_search UM meta_table).
-Proof. exact search_ok_of_residual2. Qed.
-Print Assumptions C02_engine_contract.
 
 Theorem C02_engine_pin_at_start : forall p w m, fwd_pat p = true ->
   engine_search UM meta_table p w = Some m ->
